@@ -133,7 +133,7 @@ pub fn llr_vector(rng: &mut Rng, n: usize, class: usize) -> Vec<f64> {
     let tiny = [5e-324, -5e-324, 1e-40, -1e-40, 1e-46, -1e-46, 0.0, -0.0];
     let huge = [1e30, -1e30, 1e29, -3e29];
     let mut v: Vec<f64> = (0..n).map(|_| rng.gauss() * 3.0 + 1.5).collect();
-    match class % 12 {
+    match class % 13 {
         0 => {}
         1 => v.iter_mut().for_each(|x| *x = *rng.pick(&huge)),
         2 => v.iter_mut().for_each(|x| *x = *rng.pick(&tiny)),
@@ -168,6 +168,11 @@ pub fn llr_vector(rng: &mut Rng, n: usize, class: usize) -> Vec<f64> {
         8 => v.iter_mut().for_each(|x| *x = if rng.coin(1, 2) { 1e30 } else { *rng.pick(&tiny) }),
         9 => v.iter_mut().for_each(|x| *x = (rng.range(-40, 40) as f64) / 16.0), // small, on the 1/16 grid
         10 => v.iter_mut().for_each(|x| *x = *x * 0.05), // weak: vanish in 8 bits
+        12 => {
+            // ordinary values with some KNOWN bits (shortened / pilot bits given as large LLRs): beyond the saturation points of the
+            // float rules (phi ~ 20-40, tanh clamp 9-18) and of the 8-bit quantiser, next to values well inside the working range
+            for x in v.iter_mut() { if rng.coin(1, 3) { *x = *rng.pick(&[25.0, 45.0, 100.0, 1e3, 1e6]) * if rng.coin(1, 3) { -1.0 } else { 1.0 }; } }
+        }
         _ => v.iter_mut().for_each(|x| *x = if rng.coin(1, 3) { -*x * 4.0 } else { *x * 4.0 }),
     }
     v
